@@ -98,7 +98,7 @@ def run_batch(seed, batch, tier):
             b.count("operators", o)
         if status in ("mismatch", "sql-raised"):
             if status == "sql-raised":
-                trig = trig - {"float_tie_cmp"}  # a near tie of float operands can explain a different value, not a refusal
+                trig = trig - {"float_tie_cmp", "ill_conditioned_trig"}  # a near tie of float operands can explain a different value, not a refusal
             if trig:
                 b.count("not_judged_trigger", ",".join(sorted(trig)))
                 continue
@@ -304,7 +304,11 @@ def replay(v):
     c = v.get("case")
     if not c:
         return None
+    monitors.OBS.reset_case()
     status, detail = compare_case(c, sq)
-    if status in ("mismatch", "sql-raised"):
+    trig = set(monitors.OBS.triggers) - {"sql_zero_using"}
+    if status == "sql-raised":
+        trig = trig - {"float_tie_cmp", "ill_conditioned_trig"}
+    if status in ("mismatch", "sql-raised") and not trig:
         return status + ": " + detail
     return None
